@@ -773,6 +773,11 @@ fn band_cases(thorough: bool) -> Vec<Case> {
                     continue;
                 }
                 v.push(Case { fam: fam.clone(), n: fam.m() + fam.p() + nu, prov: Prov::Hand, par: false, w: WKind::None, noise_variant: 1, level: 1e-3, amp: 1.0, solver: 0, f32_, eps: 0.0 });
+                // the parallel flavour: per-sample quantities computed by several workers must stay attached to their sample
+                v.push(Case { fam: fam.clone(), n: fam.m() + fam.p() + nu, prov: Prov::Hand, par: true, w: WKind::Ramp, noise_variant: 1, level: 1e-3, amp: 1.0, solver: 0, f32_, eps: 0.0 });
+            }
+            for nu in [3usize, 13, 28] {
+                v.push(Case { fam: fam.clone(), n: fam.m() + fam.p() + nu, prov: Prov::Built, par: true, w: WKind::InvSigma, noise_variant: 1, level: 1e-3, amp: 1.0, solver: 0, f32_, eps: 0.0 });
             }
         }
     }
@@ -817,6 +822,13 @@ fn main() {
                     }
                 }
                 dispatch(&ctx, &c, &prop, &t64, &t32, seed);
+                // a case of the parallel flavour runs on real worker threads: what it computes may depend on their schedule,
+                // which a replay does not control - it is repeated (at most 300 times) until the violation shows again
+                let mut reps = 0;
+                while c.par && reps < 300 && ctx.with(|s| s.violations.is_empty()) {
+                    dispatch(&ctx, &c, &prop, &t64, &t32, seed);
+                    reps += 1;
+                }
             }
             return;
         }
